@@ -928,6 +928,142 @@ let c20_lr = function
      | (k, w) :: _ -> Printf.sprintf "FAIL key=%s LR on input %s (%d problem runs)" k w (Stdlib.List.length !problems))
   | _ -> "FAIL malformed case"
 
+(* C19: never crash, always terminate *)
+let c19_ll = function
+  | [_; L [A "panic"]] -> "FAIL key=generator-panic the LL(k) pipeline panicked"
+  | [_; L [A why]] -> "OK 0 " ^ why
+  | [_; L [A "built"; tb; L runs]] ->
+    let tb' = ll_tables_of_sx tb in
+    if not (LLParser.tables_ok tb') then "FAIL key=tables-not-ok the generated LL tables fail tables_ok (C19_ll_no_panic does not apply)"
+    else begin
+      let cert = LLTerm.left_recursion_free tb' in
+      let problems = ref [] and acc = ref 0 and rej = ref 0 and maxerr = ref 0 and longest = ref 0 in
+      let add k w = problems := (k, w) :: !problems in
+      Stdlib.List.iter (fun r ->
+          match r with
+          | L [toks; _; A "panic"] -> add "parser-panic" (Sexp.to_string toks)
+          | L [toks; _; A "hang"] -> add "parser-hang" (Sexp.to_string toks)
+          | L [toks; rc; verdict; _] ->
+            let w = ns_of_sx toks in
+            let ws = let s = Sexp.to_string toks in if Stdlib.String.length s > 200 then Stdlib.String.sub s 0 200 ^ "..." else s in
+            longest := max !longest (Stdlib.List.length w);
+            let opts = { LLParser.o_recovery = (int_of_sx rc = 1); o_trim = false; o_max_depth = None } in
+            let rec go fuel tries =
+              (match LLParser.ll_run (nat_of_int fuel) tb' opts w with
+               | LLParser.OutOfFuel when tries > 0 -> go (fuel * 4) (tries - 1)
+               | r -> r) in
+            let m = go (8 * Stdlib.List.length w + 64) 6 in
+            (match verdict with
+             | L [A "err"; L [A "syntax"; k]] -> maxerr := max !maxerr (int_of_sx k);
+               if int_of_sx k > 101 then add "more-than-101-error-entries" ws
+             | _ -> ());
+            (match m, verdict with
+             | LLParser.Panic _, _ -> add "model-panic" ws
+             | LLParser.OutOfFuel, _ -> add "model-out-of-fuel" ws
+             | LLParser.BadInput, _ -> ()
+             | LLParser.Accepted _, A "ok" -> incr acc
+             | LLParser.Accepted _, _ -> add "verdict-differs-from-model" ws
+             | _, A "ok" -> add "verdict-differs-from-model" ws
+             | LLParser.Rejected (LLParser.RSyntaxErrors, n), L [A "err"; L [A "syntax"; k]] ->
+               if int_of_nat n <> int_of_sx k then add "error-count-differs-from-model" ws else incr rej
+             | _, _ -> incr rej)
+          | _ -> add "malformed-run" "") runs;
+      (match Stdlib.List.rev !problems with
+       | [] ->
+         if not cert then "FAIL key=no-termination-certificate-ll the generated LL tables fail the no-left-recursion certificate check (C19_ll_terminates does not apply); no hanging input among the runs (no-failing-input-found)"
+         else Printf.sprintf "OK %d ll-terminates maxerr:%s longest:%s" (if !acc > 0 && !rej > 0 then 1 else 0)
+             (if !maxerr >= 100 then "limit" else if !maxerr >= 10 then "10+" else "lt10") (if !longest >= 100 then "100+" else "lt100")
+       | (k, w) :: _ -> Printf.sprintf "FAIL key=%s LL(k) on input %s (%d problem runs; certificate %s)" k w (Stdlib.List.length !problems) (if cert then "ok" else "FAILS"))
+    end
+  | _ -> "FAIL malformed case"
+
+let c19_lr = function
+  | [g; L [A "panic"]] ->
+    if cyclic (cfg_of_sx g) then "OK 0 outside:cyclic-grammar-rejected-by-panic" else "FAIL key=generator-panic LALR(1) table construction panicked"
+  | [_; L [A why]] -> "OK 0 " ^ why
+  | [g; L [A "built"; g2; tb; _; L runs]] ->
+    let g0 = cfg_of_sx g and g2' = cfg_of_sx g2 and tb' = lr_table_of_sx tb in
+    let nstates = Stdlib.List.length tb'.LRParser.lr_states in
+    let vf = nat_of_int (4 * nstates + 50) in
+    let cert_parts = (match LRValidate.infer_annotation vf tb' with
+        | None -> (false, false, false)
+        | Some ann ->
+          let (nl, rk) = LRTerm.find_acyclic_cert g2' in
+          let srk = LRTerm.find_stack_ranks g2' tb' nl ann in
+          (LRValidate.lr_safe_check g2' tb' ann, LRTerm.acyclic_ok g2' nl rk, LRTerm.stack_rank_ok g2' tb' nl ann srk)) in
+    let cert = (cert_parts = (true, true, true)) in
+    let cert_txt = (match cert_parts with (a, b, c) -> Printf.sprintf "validator:%b acyclic:%b stack-ranks:%b" a b c) in
+    let cyc = cyclic g0 in
+    let problems = ref [] and acc = ref 0 and rej = ref 0 and longest = ref 0 in
+    let add k w = problems := (k, w) :: !problems in
+    Stdlib.List.iter (fun r ->
+        match r with
+        | L [toks; _; A "panic"] -> add "parser-panic" (Sexp.to_string toks)
+        | L [toks; _; A "hang"] -> add (if cyc then "lr-parser-does-not-terminate-cyclic-grammar" else "parser-hang") (Sexp.to_string toks)
+        | L [toks; _; verdict; _] ->
+          let w = ns_of_sx toks in
+          let ws = let s = Sexp.to_string toks in if Stdlib.String.length s > 200 then Stdlib.String.sub s 0 200 ^ "..." else s in
+          longest := max !longest (Stdlib.List.length w);
+          if verdict = L [A "err"; L [A "depth"]] || verdict = L [A "err"; L [A "budget"]] then
+            add (if cyc then "lr-parser-does-not-terminate-cyclic-grammar" else "lr-parser-does-not-terminate") ws
+          else begin
+            let rec go fuel tries =
+              (match LRParser.lr_run (nat_of_int fuel) tb' w with
+               | LRParser.OutOfFuel when tries > 0 -> go (fuel * 4) (tries - 1)
+               | r -> r) in
+            (match go ((Stdlib.List.length w + 2) * (nstates + 2) * 4 + 20) 4, verdict with
+             | LRParser.Panic _, _ | LRParser.InternalErr _, _ -> add "model-panic" ws
+             | LRParser.OutOfFuel, _ -> add "model-out-of-fuel" ws
+             | LRParser.Accepted _, A "ok" -> incr acc
+             | LRParser.Rejected, L [A "err"; _] -> incr rej
+             | _, _ -> add "verdict-differs-from-model" ws)
+          end
+        | _ -> add "malformed-run" "") runs;
+    (match Stdlib.List.rev !problems with
+     | [] ->
+       if cert then Printf.sprintf "OK %d lr-terminates longest:%s" (if !acc > 0 && !rej > 0 then 1 else 0) (if !longest >= 100 then "100+" else "lt100")
+       else if cyc then "FAIL key=lr-parser-does-not-terminate-cyclic-grammar a cyclic grammar was accepted (no acyclicity certificate exists; C19_lr_terminates does not apply); none of the runs happened to loop"
+       else "FAIL key=no-termination-certificate-lr the generated LR table fails the validator / acyclicity / stack-rank certificate checks (" ^ cert_txt ^ "; C19_lr_terminates does not apply); no looping input among the runs (no-failing-input-found)"
+     | (k, w) :: _ -> Printf.sprintf "FAIL key=%s LR on input %s (%d problem runs; certificate %s)" k w (Stdlib.List.length !problems) (if cert then "ok" else "FAILS"))
+  | _ -> "FAIL malformed case"
+
+(* C21: generated source text vs export model vs analysis *)
+let c21 = function
+  | [kind; _; _; L [A "panic"; _]] -> ignore kind; "OK 0 outside:generator-panic"
+  | [_; _; _; L [A "export-tool-failed"]] ->
+    "FAIL key=export-tool-fails-on-accepted-grammar `parol export` fails on a grammar for which parser generation succeeds"
+  | [_; _; _; L [A why]] -> "OK 0 " ^ why
+  | [A kind; kk; _; L [A "ll"; L diffs; g2; tb; L autos]] ->
+    (match diffs with
+     | d :: _ ->
+       let d' = (match d with A x -> x | _ -> "?") in
+       let key = Stdlib.List.hd (Stdlib.String.split_on_char ' ' (Stdlib.List.hd (Stdlib.String.split_on_char ':' d'))) in
+       Printf.sprintf "FAIL key=source-export-differ:%s the tables in the generated parser source and the export model differ: %s (%d differences)" key d' (Stdlib.List.length diffs)
+     | [] ->
+       let tb' = ll_tables_of_sx tb in
+       if not (LLParser.tables_ok tb') then "FAIL key=source-tables-not-ok the LL tables of the generated source fail tables_ok (index range / sortedness / la_wf)"
+       else begin
+         let g = cfg_of_sx g2 in
+         if Stdlib.List.length g.Cfg.prods > 45 then Printf.sprintf "OK 1 %s structural-only-large-grammar" kind
+         else
+           let r = c07 [A "x"; kk; L [A "built"; g2; L autos]] in
+           if Stdlib.String.length r >= 2 && Stdlib.String.sub r 0 2 = "OK" then Printf.sprintf "OK 1 %s source=export=analysis" kind
+           else if Stdlib.String.length r >= 8 && Stdlib.String.sub r 0 8 = "FAIL key" then "FAIL key=source-" ^ Stdlib.String.sub r 9 (Stdlib.String.length r - 9)
+           else r
+       end)
+  | [A kind; _; _; L [A "lr"; L diffs; g2; tb]] ->
+    (match diffs with
+     | d :: _ ->
+       let d' = (match d with A x -> x | _ -> "?") in
+       let key = Stdlib.List.hd (Stdlib.String.split_on_char ' ' (Stdlib.List.hd (Stdlib.String.split_on_char ':' d'))) in
+       Printf.sprintf "FAIL key=source-export-differ:%s the tables in the generated parser source and the export model differ: %s (%d differences)" key d' (Stdlib.List.length diffs)
+     | [] ->
+       let tb' = lr_table_of_sx tb and g = cfg_of_sx g2 in
+       let nstates = Stdlib.List.length tb'.LRParser.lr_states in
+       if LRValidate.lr_validate (nat_of_int (4 * nstates + 50)) g tb' then Printf.sprintf "OK 1 %s source=export validated" kind
+       else "FAIL key=source-lr-table-unsafe the LR table of the generated source fails the safety validator for the transformed grammar (no-failing-input-found)")
+  | _ -> "FAIL malformed case"
+
 (* C29 *)
 let c29 = function
   | [L evs; sched; L log; alive] ->
@@ -1100,6 +1236,9 @@ let dispatch (sx : Sexp.t) : string =
   | L (A "diag" :: args) -> c29 args
   | L (A "ll" :: args) -> if prop = "C20" then c20_ll args else c01 args
   | L (A "lro" :: args) -> c20_lr args
+  | L (A "llt" :: args) -> c19_ll args
+  | L (A "enc" :: args) -> c21 args
+  | L (A "lrt" :: args) -> c19_lr args
   | L (A "p2o" :: args) -> c30_p2o args
   | L (A "mode" :: args) -> c16_mode args
   | L [A "modes"; _; A "rejected"] -> "OK 0 grammar-rejected"
